@@ -2013,3 +2013,158 @@ V('c06-dict-move-nested-locks', 'C06', 'R6.8', DICTMBX,
         return dest_uid
 
     async def get''')
+
+# ---------------------------------------------------------------- rules
+# added after the independently seeded changes (DESIGN section 14)
+IMAPINIT = 'pymap/imap/__init__.py'
+SIEVE = 'pymap/sieve/manage/__init__.py'
+FETCHPY = 'pymap/fetch.py'
+LAYOUT = 'pymap/backend/maildir/layout.py'
+PARSINGINIT = 'pymap/parsing/__init__.py'
+SEQSET = 'pymap/parsing/specials/sequenceset.py'
+V('c01-idle-drop-when-done', 'C01', 'R1.9', IMAPINIT,
+  '''            untagged = await self._exec(state.receive_updates(cmd, done))
+            await shield(self.write_updates(untagged))''',
+  '''            untagged = await self._exec(state.receive_updates(cmd, done))
+            if not untagged:
+                continue
+            await shield(self.write_updates(untagged))''')
+V('c16-idle-drop-when-done', 'C16', 'R16.5', IMAPINIT,
+  '''            untagged = await self._exec(state.receive_updates(cmd, done))
+            await shield(self.write_updates(untagged))''',
+  '''            untagged = await self._exec(state.receive_updates(cmd, done))
+            if done.is_set():
+                return
+            await shield(self.write_updates(untagged))''')
+V('c01-idle-twin-log', 'C01', 'R1.9', IMAPINIT,
+  '''            untagged = await self._exec(state.receive_updates(cmd, done))
+            await shield(self.write_updates(untagged))''',
+  '''            untagged = await self._exec(state.receive_updates(cmd, done))
+            if done.is_set():
+                _log.debug('idle finished')
+            await shield(self.write_updates(untagged))''', expect='silent')
+V('c02-flagkey-discard-new', 'C02', 'R2.7', SEL,
+  'self._flags_key_set.discard(old_flags_key)',
+  'self._flags_key_set.discard(new_flags_key)')
+V('c02-flagkey-twin-rename', 'C02', 'R2.7', SEL,
+  '''            old_flags_key = self._flags_key_map.get(msg_uid)
+            if old_flags_key is not None:
+                self._flags_key_set.discard(old_flags_key)''',
+  '''            prev_key = self._flags_key_map.get(msg_uid)
+            if prev_key is not None:
+                self._flags_key_set.discard(prev_key)''', expect='silent')
+V('c03-partial-always-sliced-wrong', 'C03', 'R3.5', FETCHPY,
+  '''        if partial is None:
+            return data
+        full = bytes(data)''', '''        if partial is None or partial.start == 0:
+            return data
+        full = bytes(data)''')
+V('c04-uid-computed-outside-lock', 'C04', 'R4.1', DICTMBX,
+  '''        async with destination.messages_lock.write_lock():
+            destination._max_uid = dest_uid = destination._max_uid + 1
+            new_msg = Message.copy(message, uid=dest_uid, recent=recent)
+            destination._messages[dest_uid] = new_msg
+            destination._mod_sequences.update([dest_uid])
+            destination._updated.set()
+        return dest_uid
+
+    async def move''', '''        dest_uid = destination._max_uid + 1
+        async with destination.messages_lock.write_lock():
+            destination._max_uid = dest_uid
+            new_msg = Message.copy(message, uid=dest_uid, recent=recent)
+            destination._messages[dest_uid] = new_msg
+            destination._mod_sequences.update([dest_uid])
+            destination._updated.set()
+        return dest_uid
+
+    async def move''')
+V('c07-header-fields-upper', 'C07', 'R7.9',
+  'pymap/parsing/specials/fetchattr.py',
+  '''            header_list = frozenset([bytes(hdr)
+                                     for hdr in header_list_p.value])''',
+  '''            header_list = frozenset([bytes(hdr).upper()
+                                     for hdr in header_list_p.value])''')
+V('c08-split-strips', 'C08', 'R8.1', LAYOUT,
+  '''        parts = name.split(delimiter)
+        for part in parts:
+            if not part or part in ('.', '..') \\
+                    or os.sep in part or '\\0' in part:
+                raise NotSupportedError('Invalid mailbox name.')
+        return parts''',
+  '''        parts = name.split(delimiter)
+        for part in parts:
+            if not part or part in ('.', '..') \\
+                    or os.sep in part or '\\0' in part:
+                raise NotSupportedError('Invalid mailbox name.')
+        return [os.path.normpath(part) for part in parts]''')
+V('c08-split-inbox-casefold', 'C08', 'R8.4', LAYOUT,
+  '''        if name == 'INBOX':
+            return []
+        parts = name.split(delimiter)''',
+  '''        if name.upper().startswith('INBOX'):
+            return []
+        parts = name.split(delimiter)''')
+V('c18-continuation-raw-readline', 'C18', 'R18.7', IMAPINIT,
+  '''        extra_line = await self.readline()
+        extra = extra_literal + bytes(extra_line)''',
+  '''        extra_line = await self.reader.readuntil(b'\\n')
+        extra = extra_literal + bytes(extra_line)''')
+V('c18-encoder-range-7f', 'C18', 'R18.7', 'pymap/parsing/modutf7.py',
+  '''            elif 0x20 <= charpoint <= 0x7e:''',
+  '''            elif 0x20 <= charpoint <= 0x7f:''')
+V('c19-sieve-login-cached', 'C19', 'R19.7', SIEVE,
+  '''        stack = connection_exit.get()
+        identity = await self.login.authenticate(creds)
+        return await stack.enter_async_context(identity.new_session())''',
+  '''        stack = connection_exit.get()
+        if creds.authcid == getattr(self, '_last_authcid', None):
+            return await stack.enter_async_context(
+                self._last_identity.new_session())
+        identity = await self.login.authenticate(creds)
+        self._last_authcid = creds.authcid
+        self._last_identity = identity
+        return await stack.enter_async_context(identity.new_session())''')
+V('c09-imap-login-skips-authenticate', 'C09', 'R9.2', STATE,
+  '''        authenticated = await self.login.authenticate(creds)
+        authorized = await self.login.authorize(authenticated, creds.authzid)
+        return await stack.enter_async_context(authorized.new_session())''',
+  '''        if creds.authzid is None and self._session is not None:
+            return self._session
+        authenticated = await self.login.authenticate(creds)
+        authorized = await self.login.authorize(authenticated, creds.authzid)
+        return await stack.enter_async_context(authorized.new_session())''')
+V('c06-copy-truthy-override', 'C06', 'R6.9', PARSINGINIT,
+  '''        if value is not None:
+            kwargs[attr] = value
+        else:
+            kwargs[attr] = getattr(self, attr)''',
+  '''        if value:
+            kwargs[attr] = value
+        else:
+            kwargs[attr] = getattr(self, attr)''')
+V('c06-copy-twin-ifexp', 'C06', 'R6.9', PARSINGINIT,
+  '''        if value is not None:
+            kwargs[attr] = value
+        else:
+            kwargs[attr] = getattr(self, attr)''',
+  '''        kwargs[attr] = value if value is not None \\
+            else getattr(self, attr)''', expect='silent')
+V('c06-sieve-continuations-on', 'C06', 'R6.9', SIEVE,
+  'config.parsing_params.copy(allow_continuations=False)',
+  'config.parsing_params.copy()')
+V('c06-literal-expect-unguarded', 'C06', 'R6.9', PRIM,
+  '''        elif params.allow_continuations:
+            expected = ExpectContinuation(b'Literal string', literal_length)''',
+  '''        elif params.allow_continuations or literal_length == 0:
+            expected = ExpectContinuation(b'Literal string', literal_length)''')
+V('c06-range-unclamped-high', 'C06', 'R6.5', SEQSET,
+  'high = min(max(left, right), max_value)',
+  'high = max(left, right)')
+V('c06-range-twin-reordered', 'C06', 'R6.5', SEQSET,
+  'high = min(max(left, right), max_value)',
+  'high = min(max_value, max(left, right))', expect='silent')
+V('c06-range-single-unguarded', 'C06', 'R6.5', SEQSET,
+  '''            if elem <= max_value:
+                return range(elem, elem + 1)
+            else:
+                return ()''', '''            return range(elem, elem + 1)''')
